@@ -544,12 +544,12 @@ func (txn *Txn) commitAndSend() (func() error, error) {
 			keepTogether = false
 		}
 	}
-	for _, e := range txn.pendingWrites {
-		setVersion(e)
-	}
 	// The duplicateWrites slice will be non-empty only if there are duplicate
 	// entries with different versions.
 	for _, e := range txn.duplicateWrites {
+		setVersion(e)
+	}
+	for _, e := range txn.pendingWrites {
 		setVersion(e)
 	}
 
@@ -576,10 +576,14 @@ func (txn *Txn) commitAndSend() (func() error, error) {
 	// var b strings.Builder
 	// fmt.Fprintf(&b, "Read: %d. Commit: %d. reads: %v. writes: %v. Keys: ",
 	// 	txn.readTs, commitTs, txn.reads, txn.conflictKeys)
-	for _, e := range txn.pendingWrites {
+	// duplicateWrites holds the entries that were overwritten by a later write to the same key
+	// with a different version; pendingWrites holds the latest write per key. Emit the older
+	// ones first: if an overwritten entry resolves to the same version as the latest one, the
+	// latest must be applied last so that it wins.
+	for _, e := range txn.duplicateWrites {
 		processEntry(e)
 	}
-	for _, e := range txn.duplicateWrites {
+	for _, e := range txn.pendingWrites {
 		processEntry(e)
 	}
 
